@@ -23,6 +23,13 @@ func (h Handle) Validate(needCollection bool) error {
 		return fmt.Errorf("missing database in handle")
 	}
 
+	// a namespace is stored under "database.collection" and split again at
+	// the first dot, so the database name must not contain one (MongoDB
+	// rejects such names as well)
+	if strings.Contains(h[0], ".") {
+		return fmt.Errorf("invalid database name %q: must not contain '.'", h[0])
+	}
+
 	// check collection
 	if needCollection && h[1] == "" {
 		return fmt.Errorf("missing collection in handle")
